@@ -17,7 +17,7 @@ import sampletable2coq    # noqa: E402
 PROP = "C03"
 META = dict(
     technique="Coq proof over generated conversions + generated companion table + hand model of dasp_frame; coqc-evaluated model vs crates correspondence (debug + release)",
-    text="translate/sampletable2coq.py reads the impl_sample! table (Signed, Float, EQUILIBRIUM per format) and pins the text of Sample::{to_signed_sample,to_float_sample,add_amp,mul_amp}; Sample/SampleOps.v composes them from the conversions generated from conv.rs (C01) and the I24/I48 operator model (C15). Coq 8.16.1 proves: the table facts; add_amp s 0 = s (all 14 formats, both profiles); mul_amp s 0.0 = equilibrium and mul_amp s 1.0 = s exactly for the formats that fit the float companion's mantissa (8/16/24-bit with f32, 48-bit with f64), with explicit counterexamples for the 32/64-bit formats; add_amp = re-centred integer addition, Ok iff the signed sum is representable; for EVERY channel count N and every frame: Frame::map/zip_map/from_fn through the unchecked indexing never hit UB and equal the in-order per-channel traversal (call order included), from_samples returns Some(firstn N) iff the iterator has N items, consumes exactly min(N, len) items and never reads an unwritten slot, every amplitude method is the per-channel sample method in channel order, channels()/channel(i) enumerate the frame, and a bare sample behaves as the 1-channel frame. The model is tied to the crates by running it inside coqc on the same cases as the real code (public trait methods, 232 array monomorphisations N=1..32 + 14 mono impls, call-order-recording FnMut closures, counting iterators, panics observed).",
+    text="translate/sampletable2coq.py reads the impl_sample! table (Signed, Float, EQUILIBRIUM per format) and pins the text of Sample::{to_signed_sample,to_float_sample,add_amp,mul_amp}; Sample/SampleOps.v composes them from the conversions generated from conv.rs (C01) and the I24/I48 operator model (C15). Coq 8.16.1 proves: the table facts; add_amp s 0 = s (all 14 formats, both profiles); mul_amp s 0.0 = equilibrium and mul_amp s 1.0 = s exactly for the formats that fit the float companion's mantissa (8/16/24-bit with f32, 48-bit with f64), with explicit counterexamples for the 32/64-bit formats; add_amp = re-centred integer addition, Ok iff the signed sum is representable; for EVERY channel count N and every frame: Frame::map/zip_map/from_fn through the unchecked indexing never hit UB and equal the in-order per-channel traversal (call order included), from_samples returns Some(firstn N) iff the iterator has N items, consumes exactly min(N, len) items and never reads an unwritten slot, every amplitude method is the per-channel sample method in channel order, channels()/channel(i) enumerate the frame, any script of iterator steps (next, nth, skip, step_by, count, last, len) on one channels() iterator behaves as the list iterator over the channels (provided methods of core::iter modelled from next()), and a bare sample behaves as the 1-channel frame. The model is tied to the crates by running it inside coqc on the same cases as the real code (public trait methods, 232 array monomorphisations N=1..32 + 14 mono impls, call-order-recording FnMut closures, counting iterators, panics observed).",
     note="Trusted: Coq kernel; translate/conv2coq.py + translate/sampletable2coq.py; Sample/Rint.v, Sample/TypesModel.v, Base/Float.v (Flocq) as the meaning of Rust's integer / I24 / IEEE operators; core::array::from_fn and core::array::map call their closure in index order (std documentation); harness + generators. Several frame theorems are near-definitional in a functional model: their content is the absence of UB in the unchecked-index code and the pinned correspondence. Axioms: the standard real-number axioms through Flocq for the float identities only.",
     design="6/C03")
 HEADER = "From Dasp Require Import Sample.ConvRun Frame.FrameRun.\nRequire Import Uint63."
@@ -568,7 +568,7 @@ def finish(rep, info, stats, times, fb):
         "regenerated_files": info.get("regenerated", []),
         "evaluations": stats.get("evaluations", 0), "cases": stats.get("cases", 0),
         "distinct_nontrivial": stats.get("nontrivial", 0),
-        "rule": "every op of every case is one evaluation, compared exactly (values, logs of closure calls, iterator call counts, panics). Cases: Sample::{add_amp,mul_amp,to_signed_sample,to_float_sample,EQUILIBRIUM} on boundary-structured + random values of all 14 formats; every Frame method on [S; N] for N=1..32 over u8,i16,I24,u32,f32,f64 and N in {1,2,3,8,32} over the other 8 formats, and on every bare sample type; from_samples with every iterator length 0..N+2; both build profiles. non-trivial = an offset/scale/add_amp/mul_amp with a non-zero amplitude on an unsigned or custom-width (24/48-bit) format, or a frame op on N >= 2 channels with distinct values, or a from_samples with fewer than N items (distinct (format, N, op, arguments))",
+        "rule": "every op of every case is one evaluation, compared exactly (values, logs of closure calls, iterator call counts, panics). Cases: Sample::{add_amp,mul_amp,to_signed_sample,to_float_sample,EQUILIBRIUM} on boundary-structured + random values of all 14 formats; every Frame method on [S; N] for N=1..32 over u8,i16,I24,u32,f32,f64 and N in {1,2,3,8,32} over the other 8 formats, and on every bare sample type; from_samples with every iterator length 0..N+2; iterator-adaptor scripts (structured: nth/skip/step_by/count/last/len on a partly consumed and on an exhausted iterator, next_back/rev on the slice-backed ones; plus random scripts) on ONE channels() / channels_ref() / channels_mut() instance for every (format, N) and every bare sample; both build profiles. non-trivial = an offset/scale/add_amp/mul_amp with a non-zero amplitude on an unsigned or custom-width (24/48-bit) format, or a frame op on N >= 2 channels with distinct values, or a from_samples with fewer than N items, or an iterator script with a position-dependent step after the iterator was advanced (distinct (format, N, op, arguments))",
         "samples": stats.get("samples", []), "input_distribution": dict(stats.get("hist", {}), panic_observations=stats.get("panics", 0)),
         "disagreements": stats.get("bad", 0), "scale_by_one_bound_checked": stats.get("scale_by_one_checked", 0), "timing": times, "float_model_validation": fb,
         "explanation": "theorems: identities of add_amp/mul_amp per format, re-centring, per-channel / in-order / no-UB theorems for every N; tie: translator for the companion table and conversions + the executable model run by coqc on the same cases as the crates through the public traits, all observations compared exactly",
